@@ -902,6 +902,14 @@ class C07(SimCheck):
             scn = simgen.make_decimal(scn)       # timers at non-dyadic times, set at every moment of the run
         if r.random() < 0.12:
             scn = simgen.make_crowd(scn, r)      # (node, name) pairs that are spelt alike
+        if r.random() < 0.25 and scn.get("tick") is None and not scn["cfg"]["hasMob"]:
+            # watchdogs: timers set far ahead that are usually cancelled (and re-armed) long before they are due; the
+            # cancelled ones stay queued while the handler goes idle and busy again many times
+            base = simgen.Behaviour(0, scn["cfg"]).p
+            scn["profile"]["offsets"] = list(scn["profile"].get("offsets", base["offsets"])) + [40960, 40960, 81920]
+            scn["profile"]["w"] = dict(scn["profile"]["w"], cancelTimer=scn["profile"]["w"].get("cancelTimer", 2) + 2)
+            scn["cfg"]["duration"] = None
+            scn["cfg"]["maxIter"] = None
         return scn
 
     def obs(self, case, res):
